@@ -28,17 +28,20 @@ Lossless(a, fs, fd) == fd >= fs \/ ZEq(ZShl(ZFloorShr(a, fs - fd), fs - fd), a)
 
 (* ------------------------------ floats ---------------------------------- *)
 \* float formats by total width: 32 and 64 are IEEE binary32 / binary64; 8 (1+4+3) and 10 (1+5+4) are miniature
-\* formats of the same parametric shape, used only by the small-width design model tla/mc/MC_Float
-FPrec(ft)  == CASE ft = 32 -> 24  [] ft = 64 -> 53   [] ft = 8 -> 4  [] ft = 10 -> 5
-FEBits(ft) == CASE ft = 32 -> 8   [] ft = 64 -> 11   [] ft = 8 -> 4  [] ft = 10 -> 5
-FBias(ft)  == CASE ft = 32 -> 127 [] ft = 64 -> 1023 [] ft = 8 -> 7  [] ft = 10 -> 15
-FEMax(ft)  == CASE ft = 32 -> 255 [] ft = 64 -> 2047 [] ft = 8 -> 15 [] ft = 10 -> 31
+\* formats of the same parametric shape, used only by the small-width design model tla/mc/MC_Float; 16 is IEEE binary16
+\* (half::f16) and 17 stands for bfloat16 (half::bf16, 1+8+7), both behind the crate's "f16" feature (growth check G03)
+FPrec(ft)  == CASE ft = 32 -> 24  [] ft = 64 -> 53   [] ft = 8 -> 4  [] ft = 10 -> 5  [] ft = 16 -> 11 [] ft = 17 -> 8
+FEBits(ft) == CASE ft = 32 -> 8   [] ft = 64 -> 11   [] ft = 8 -> 4  [] ft = 10 -> 5  [] ft = 16 -> 5  [] ft = 17 -> 8
+FBias(ft)  == CASE ft = 32 -> 127 [] ft = 64 -> 1023 [] ft = 8 -> 7  [] ft = 10 -> 15 [] ft = 16 -> 15 [] ft = 17 -> 127
+FEMax(ft)  == CASE ft = 32 -> 255 [] ft = 64 -> 2047 [] ft = 8 -> 15 [] ft = 10 -> 31 [] ft = 16 -> 31 [] ft = 17 -> 255
+
+FWidth(ft) == IF ft = 17 THEN 16 ELSE ft          \* total width: the sign is bit FWidth - 1
 
 FDec(bits, ft) ==
   LET p  == FPrec(ft)
       E  == ZToInt(ZUMod2(ZFloorShr(bits, p - 1), FEBits(ft)))
       M  == ZUMod2(bits, p - 1)
-  IN [neg  |-> ZToInt(ZFloorShr(bits, ft - 1)) = 1,
+  IN [neg  |-> ZToInt(ZFloorShr(bits, FWidth(ft) - 1)) = 1,
       cls  |-> IF E = FEMax(ft) THEN (IF ZIsZero(M) THEN "inf" ELSE "nan") ELSE "fin",
       mant |-> IF E = 0 THEN M ELSE ZAdd(ZPow2(p - 1), M),
       ex   |-> (IF E = 0 THEN 1 ELSE E) - FBias(ft) - (p - 1)]
@@ -81,7 +84,7 @@ FixToFloatBits(a, f, ft) ==
            body == ZAdd(ZShl(ZI(eq + bias - 1), p - 1), M)   \* carries into the exponent correctly
            infb == ZShl(ZI(FEMax(ft)), p - 1)
            res  == IF ZLe(infb, body) THEN infb ELSE body
-       IN IF ZSign(a) < 0 THEN ZAdd(ZPow2(ft - 1), res) ELSE res
+       IN IF ZSign(a) < 0 THEN ZAdd(ZPow2(FWidth(ft) - 1), res) ELSE res
 
 (* ------------------------------ bytes ----------------------------------- *)
 \* the n little-endian bytes of the unsigned pattern a
